@@ -196,6 +196,86 @@ add('c11-benign-new-wrapped-function', 'C11', 'benign', [(MATH, """FUNCTIONS['PI
     """FUNCTIONS['PI'] = lambda: math.pi
 FUNCTIONS['TOINT'] = wrap_ufunc(lambda x: int(x))""")])
 
+# ---------------------------------------------------------------- C18
+PARSER = 'formulas/parser.py'
+OPERAND = 'formulas/tokens/operand.py'
+OPERATOR = 'formulas/tokens/operator.py'
+PAREN = 'formulas/tokens/parenthesis.py'
+add('c18-eval-back', 'C18', 'break', [(OPERAND, """        name = self.name.upper()
+        if name in ('TRUE', 'FALSE'):
+            return name == 'TRUE'
+        try:
+            return int(name)
+        except ValueError:
+            return float(name)""", """        return eval(self.name.capitalize())""")], expect='C18')
+add('c18-builder-raises-valueerror', 'C18', 'break', [(BUILDER, """            except IndexError:
+                raise FormulaError()""", """            except IndexError:
+                raise ValueError()""")], expect='C18')
+add('c18-indexerror-handler-removed', 'C18', 'break', [(BUILDER, """            try:
+                tokens = [self.pop() for _ in range(token.get_n_args)][::-1]
+            except IndexError:
+                raise FormulaError()""", """            tokens = [self.pop() for _ in range(token.get_n_args)][::-1]""")], expect='C18.arity')
+add('c18-paren-raises-runtimeerror', 'C18', 'break', [(PAREN, """            if not stack or self.opens[self.name] != stack[-1].name:
+                raise ParenthesesError()""", """            if not stack or self.opens[self.name] != stack[-1].name:
+                raise RuntimeError('unbalanced')""")], expect='C18.esc')
+add('c18-operand-adjacent-assert', 'C18', 'break', [(OPERAND, """        if tokens and isinstance(tokens[-1], Operand):
+            raise TokenError()""", """        assert not (tokens and isinstance(tokens[-1], Operand))""")], expect='C18.esc')
+add('c18-narrow-formulaerror-handler', 'C18', 'break', [(PARSER, """                except TokenError:
+                    pass
+                except FormulaError:
+                    raise FormulaError(expression)""", """                except TokenError:
+                    pass
+                except ParenthesesError:
+                    raise FormulaError(expression)""")], expect='C18.arity')
+add('c18-no-filter-else-dropped', 'C18', 'break', [(PARSER, """            else:
+                raise FormulaError(expression)
+        Parenthesis(')')""", """            else:
+                expr = expr[1:]
+        Parenthesis(')')""")], expect='C18.arity')
+add('c18-len-check-dropped', 'C18', 'break', [(PARSER, """        if len(builder) != 1:
+            raise FormulaError(expression)
+""", "")], expect='C18.arity')
+add('c18-new-error-class-not-formula', 'C18', 'break', [('formulas/errors.py', """class ParenthesesError(FormulaError):""", """class ParenthesesError(BaseError):""")], expect='C18.esc')
+add('c18-signrun-accepts-semicolon', 'C18', 'break', [(OPERATOR, """(?P<sum_minus>[\\+\\s\\-]+)""", """(?P<sum_minus>[\\+\\s\\-;]+)""")], expect='C18.reject')
+add('c18-number-int-only', 'C18', 'break', [(OPERAND, """        try:
+            return int(name)
+        except ValueError:
+            return float(name)""", """        return int(name)""")], expect='C18.num')
+add('c18-benign-new-formulaerror-subclass', 'C18', 'benign', [('formulas/errors.py', """class FunctionError(FormulaError):""", """class ArityError(FormulaError):
+    msg = 'Wrong number of arguments!'
+
+
+class FunctionError(FormulaError):"""), (BUILDER, """            except IndexError:
+                raise FormulaError()""", """            except IndexError:
+                from .errors import ArityError
+                raise ArityError()""")])
+add('c18-benign-else-raises-tokenerror', 'C18', 'benign', [(PARSER, """            else:
+                raise FormulaError(expression)
+        Parenthesis(')')""", """            else:
+                raise TokenError(expression)
+        Parenthesis(')')""")])
+add('c18-repair-summinus-class', 'C18', 'repair', [(OPERATOR, """(?P<sum_minus>[\\+\\s\\-]+)""", """(?P<sum_minus>[\\+ \\-]+)""")],
+    clears='formulas/tokens/operator.py::OperatorToken::sum_minus class admits 09,0a,0b,0c,0d')
+add('c18-repair-intersect-name', 'C18', 'repair', [(OPERATOR, """    _re = regex.compile(r'^(?P<name>\\s)\\s*')""", """    _re = regex.compile(r'^(?P<name> )\\s*')""")],
+    clears='formulas/parser.py::Parser.ast::escapes KeyError from formulas/tokens/operator.py::Operator.pred via Intersect')
+add('c18-repair-boundary-valueerror', 'C18', 'repair', [(BUILDER, """                self.dsp.add_function(**kw)
+            else:""", """                try:
+                    self.dsp.add_function(**kw)
+                except ValueError:
+                    raise FormulaError()
+            else:"""), (BUILDER, """                    for k, v in _inputs.items():
+                        if v is not sh.NONE:
+                            self.dsp.add_data(k, v)""", """                    for k, v in _inputs.items():
+                        if v is not sh.NONE:
+                            try:
+                                self.dsp.add_data(k, v)
+                            except ValueError:
+                                raise FormulaError()"""), (BUILDER, """                self.dsp.add_function(None, sh.bypass, [out], [n_id])""", """                try:
+                    self.dsp.add_function(None, sh.bypass, [out], [n_id])
+                except ValueError:
+                    raise FormulaError()""")],
+    clears='formulas/parser.py::Parser.ast::escapes ValueError from formulas/builder.py::AstBuilder.append')
+
 if __name__ == '__main__':
     here = os.path.dirname(os.path.abspath(__file__))
     ids = [v['id'] for v in V]
